@@ -124,8 +124,12 @@ def run(ctx, R, tier):
         ok = same_block and isinstance(as_.value, ast.Call) and unparse(as_.value.func) == "len" and unparse(as_.value.args[0]) == chunk and isinstance(as_.op, ast.Add)
         why = "the buffer grows by `%s` but the counter by `%s` (or in different branches)" % (chunk, unparse(as_.value))
     R.check(ok, "C17-R3", "receive_data|accumulate-and-advance", "the chunk is appended and counted in the same block", rx.loc(inner), why)
-    brk = [n for n in walk_no_nested(inner) if isinstance(n, ast.If) and isinstance(n.test, ast.UnaryOp) and isinstance(n.test.op, ast.Not) and
-           any(isinstance(x, ast.Break) for x in n.body)]
+    chunkvar = unparse(ext[0].args[0]) if ext and ext[0].args else None
+
+    def empty_chunk(atom, pol):
+        return pol is False and unparse(atom) == chunkvar
+    brk = [n for n in rcfg.nodes if n.kind == "stmt" and isinstance(n.ast, ast.Break) and inner in enclosing_loops(n.ast, rx.node) and
+           rcfg.guarded(n, lambda e: edge_has_fact(e, empty_chunk))]
     R.check(bool(brk), "C17-R3", "receive_data|eof-leaves-loop", "an empty chunk (peer closed) leaves the receive loop", rx.loc(inner),
             "end of stream is not detected: the loop would spin on an empty recv")
     sends = [c for c, _ in ctx.cg.calls_of(tx) if isinstance(c.func, ast.Attribute) and c.func.attr == "send"]
